@@ -1,5 +1,6 @@
 """C06 - the subtyping judgement is sound (direction / exhaustiveness part)."""
 import ast
+import re
 
 from ..repo import AnalysisError
 from ..report import Ob, RuleSpec
@@ -326,6 +327,14 @@ def r3_positive(repo):
                 walk(shapes)
                 problems = []
                 for s, d in flat:
+                    if s in ("unknown", "name") and re.search(r"\b(isinstance|issubclass)\s*\(\s*(self|type\(self\)|self\.__class__)\s*,", str(d)) \
+                            and re.search(r"%s\.__class__|type\(%s\)" % (other, other), str(d)):
+                        # a recognisably unsound shape: the relation of the IR is the *declared* supertypes of a type, the
+                        # Python class hierarchy of the classes that represent types is something else (a primitive and
+                        # its box share a class, Void derives from nothing that says Object)
+                        problems.append("answer taken from the Python class hierarchy (`%s`), not from the declared "
+                                        "supertypes" % d)
+                        continue
                     if s == "unknown" or s == "name":
                         raise AnalysisError("unrecognised answer shape `%s` in %s (line %d)" % (
                             d, f.qualname, r.lineno), rule="C06-R3", anchor=f.qualname)
